@@ -11,10 +11,13 @@ import (
 	"os"
 	"sort"
 	"strings"
+	"syscall"
 
 	"github.com/go-python/gpython/py"
 	gprepl "github.com/go-python/gpython/repl"
+	"github.com/go-python/gpython/repl/cli"
 	"github.com/go-python/gpython/simrt"
+	"github.com/go-python/gpython/simrt/simfs"
 	"github.com/go-python/gpython/zzverif/harness"
 	"github.com/go-python/gpython/zzverif/pyhost"
 )
@@ -176,6 +179,20 @@ func (g *sgen) stmt() Stmt {
 	case x < 33:
 		a, t := g.tk(g.intExpr())
 		b, t2 := g.tk(g.intExpr())
+		if r.Chance(1, 2) {
+			// a nested scope (comprehension, generator expression, lambda) in a
+			// statement after the first ';' of the line
+			n := fmt.Sprint(1 + r.Intn(3))
+			nb, t3 := g.tk(n)
+			second := []string{"[i * 2 for i in range(" + nb + ")]", "sum(z for z in range(" + nb + "))", "(lambda q: q + " + nb + ")(2)", "[j for j in range(3) if j < " + nb + "]", "(lambda: [w for w in range(" + nb + ")])()"}[r.Intn(5)]
+			line := g.v() + " = " + a + "; " + g.v() + " = " + second
+			ticks := []int{t, t3}
+			if r.Chance(1, 3) {
+				line += "; " + g.v() + " = " + b
+				ticks = append(ticks, t2)
+			}
+			return Stmt{Kind: "semi", Lines: []string{line}, Ticks: ticks}
+		}
 		return Stmt{Kind: "semi", Lines: []string{g.v() + " = " + a + "; " + g.v() + " = " + b}, Ticks: []int{t, t2}}
 	case x < 34 && r.Chance(1, 2):
 		c, t := g.tk(g.v() + " < 50")
@@ -426,6 +443,10 @@ func (Engine) Exec(sci interface{}, opt harness.ExecOpts) *harness.Outcome {
 	var wins []window
 	var promptErrs []string
 	var panicMsg string
+	var fed, promptsBefore []string
+	var cliOut, cliErr string
+	var cliTicks []int
+	cliRan := false
 
 	sim := simrt.New(simrt.Config{MaxSteps: 30000000, Order: sc.Order, KeepLog: opt.KeepLog})
 	sim.Spawn("terminal", func() {
@@ -533,6 +554,8 @@ func (Engine) Exec(sci interface{}, opt harness.ExecOpts) *harness.Outcome {
 		feed := func(line string) {
 			ui.run++
 			simrt.Log("line", line)
+			fed = append(fed, line)
+			promptsBefore = append(promptsBefore, ui.prompt)
 			rp.Run(line)
 			simrt.Log("prompt", ui.prompt)
 		}
@@ -574,6 +597,11 @@ func (Engine) Exec(sci interface{}, opt harness.ExecOpts) *harness.Outcome {
 			if r, err := py.Repr(u); err == nil {
 				replUnderscore = string(r.(py.String))
 			}
+		}
+		// ---------------- the same lines through the command-line front end
+		if lineSafeForCLI(fed) {
+			cliRan = true
+			cliOut, cliTicks, cliErr = runCLI(fed)
 		}
 	})
 	res := sim.Run()
@@ -702,6 +730,38 @@ func (Engine) Exec(sci interface{}, opt harness.ExecOpts) *harness.Outcome {
 		}
 	}
 
+	// the command-line front end (repl/cli.RunREPL over a non-terminal stdin)
+	// must hand every physical line, unchanged and once, to the same REPL: its
+	// transcript is the prompts and prints of the direct session
+	if cliRan && len(out.Violations) == 0 {
+		out.Probe("cli_front_end_session")
+		var want strings.Builder
+		pj := 0
+		for i := range fed {
+			want.WriteString(promptsBefore[i])
+			for pj < len(ui.prints) && ui.prints[pj].run <= i+1 {
+				want.WriteString(ui.prints[pj].text + "\n")
+				pj++
+			}
+		}
+		want.WriteString(ui.prompt + "\n")
+		var wantTicks, gotTicks []string
+		for _, t := range ticks {
+			wantTicks = append(wantTicks, fmt.Sprint(t.id))
+		}
+		for _, t := range cliTicks {
+			gotTicks = append(gotTicks, fmt.Sprint(t))
+		}
+		switch {
+		case cliErr != "":
+			out.Infra = "cli front end set-up: " + cliErr
+		case strings.Join(gotTicks, ",") != strings.Join(wantTicks, ","):
+			out.Violate("front-end-session-differs", "cli|ticks", "the same lines piped through the command-line front end executed side effects [%s], the REPL fed directly [%s]", strings.Join(gotTicks, ","), strings.Join(wantTicks, ","))
+		case cliOut != want.String():
+			out.Violate("front-end-session-differs", "cli|transcript", "the same lines piped through the command-line front end produced the transcript %q, the REPL fed directly implies %q", cliOut, want.String())
+		}
+	}
+
 	// coverage
 	multi := false
 	for si, st := range sc.Stmts {
@@ -729,6 +789,95 @@ func (Engine) Exec(sci interface{}, opt harness.ExecOpts) *harness.Outcome {
 		out.Shape = sb.String()
 	}
 	return out
+}
+
+// lineSafeForCLI: the non-terminal reader of the line-editing library splits
+// physical lines at 4096 bytes and at \r; such lines are not generated, but a
+// shrunk or hand-written scenario is checked.
+func lineSafeForCLI(lines []string) bool {
+	for _, l := range lines {
+		if len(l) > 2000 || strings.ContainsAny(l, "\r\n") {
+			return false
+		}
+	}
+	return true
+}
+
+var cliOutFile *os.File
+
+// runCLI runs cli.RunREPL on a fresh context with file descriptors 0 and 1
+// replaced by a pipe holding the lines and a scratch file, and returns what
+// the front end wrote.  The history file is unavailable (empty simulated
+// file system, writes refused).
+func runCLI(lines []string) (transcript string, ticks []int, errMsg string) {
+	if cliOutFile == nil {
+		f, err := os.CreateTemp("", "verif-cli-out-")
+		if err != nil {
+			return "", nil, err.Error()
+		}
+		os.Remove(f.Name())
+		cliOutFile = f
+	}
+	if err := cliOutFile.Truncate(0); err != nil {
+		return "", nil, err.Error()
+	}
+	cliOutFile.Seek(0, 0)
+	pr, pw, err := os.Pipe()
+	if err != nil {
+		return "", nil, err.Error()
+	}
+	defer pr.Close()
+	input := strings.Join(lines, "\n") + "\n"
+	if len(input) > 60000 {
+		pw.Close()
+		return "", nil, "session too large for the pipe"
+	}
+	pw.WriteString(input)
+	pw.Close()
+
+	ctx := py.NewContext(py.ContextOpts{SysArgs: []string{"sim"}})
+	rp := gprepl.New(ctx)
+	sess := pyhost.Attach(ctx, rp.Module)
+	defer sess.Close()
+	sess.Hook = func(kind string, args py.Tuple) {
+		if kind == "tick" && len(args) > 0 {
+			if id, ok := args[0].(py.Int); ok {
+				ticks = append(ticks, int(id))
+			}
+		}
+	}
+	save0, err0 := syscall.Dup(0)
+	save1, err1 := syscall.Dup(1)
+	if err0 != nil || err1 != nil {
+		return "", nil, "dup failed"
+	}
+	simfs.Install(simfs.New())
+	restore := func() {
+		syscall.Dup2(save0, 0)
+		syscall.Dup2(save1, 1)
+		syscall.Close(save0)
+		syscall.Close(save1)
+		simfs.Install(nil)
+	}
+	syscall.Dup2(int(pr.Fd()), 0)
+	syscall.Dup2(int(cliOutFile.Fd()), 1)
+	func() {
+		defer restore()
+		defer func() {
+			if r := recover(); r != nil {
+				errMsg = ""
+				transcript = "PANIC: " + fmt.Sprint(r)
+			}
+		}()
+		cli.RunREPL(rp)
+	}()
+	if strings.HasPrefix(transcript, "PANIC") {
+		return transcript, ticks, ""
+	}
+	cliOutFile.Seek(0, 0)
+	b := make([]byte, 1<<20)
+	n, _ := cliOutFile.Read(b)
+	return string(b[:n]), ticks, ""
 }
 
 func orUnset(s string) string {
